@@ -2,15 +2,32 @@ import HyperModel.Model.Executor
 /-!
 # Finer relation of the executor: `Run` interleaved with task completion (C08)
 
-`Run(keys, f)` is split into its critical sections: the header (id, task record, counter set
-to `maxDependencies`), one step per iteration of `for k, v := range keys` (the section under
-`lt.l`, `Model.Executor.regKey`), and the final `dependencies.Add(-(maxDependencies - n))`
-with the send to `executable`. Between those steps workers dequeue, task bodies end and
-their completion sections run (still atomic: they run under the task's lock) — this is the
-"reader finishing while a writer enqueues" hand-off. `maxDependencies` is what keeps a
-partially registered task from being sent early; the relation carries the code's stated
-precondition ("no single task has more than maxDependencies") as the enabling condition of
-`runKey`.
+One step per critical section / atomic operation of `executor.go`:
+
+* `Run(keys, f)`: the header (id, task record, counter set to `maxDependencies`), one step per
+  iteration of `for k, v := range keys` (the region under `lt.l`, with the nested `rt.l`
+  regions for the readers of `lt`; `Model.Executor.regKey`), and the final
+  `dependencies.Add(-(maxDependencies - n))` with the send to `executable`.
+* `work`/`runTask` for task `t`: `dequeue` (`<-e.executable`, :62), `check` (`e.err.Load()`,
+  :120; the ghost `start`/`skip` event is placed here), `finish` (the body has returned; the
+  CAS on `e.err` if it failed, :125-126), one `dereg t o` per entry of `t.reading` (the region
+  under `o.l` that deletes `t` from `o.readers`, :96-100, any order), and `notify` (the region
+  under `t.l`, :104-113: decrement and send the blocked tasks, `blocked = nil`,
+  `executed = true`).
+* `Stop` (CAS), `Wait`.
+
+Merged, and why: `outstanding.Done()` (:114) is merged into `notify` — it is the same
+goroutine's next action and its only effect is to enable `Wait`'s return. `t.reading = nil`
+(:102) is private to the goroutine. The sends inside `notify` happen under `t.l`; they cannot
+block when the channel capacity is ≥ the number of tasks (precondition of `New`), which the
+relation assumes (unbounded queue). The nested `rt.l` regions inside a `runKey` step are not
+split (they are taken while `lt.l` is held; `rt` can only pass its own `dereg rt lt` after
+`lt.l` is released, so `rt`'s `notify` cannot run in between — the argument of the code
+comment, which here is an assumption of the granularity, not a theorem).
+
+`maxDependencies` is what keeps a partially registered task from being sent early; the
+relation carries the code's stated precondition ("no single task has more than
+maxDependencies") as the enabling condition of `runKey`.
 -/
 namespace HyperModel.Executor
 
@@ -51,12 +68,23 @@ inductive FStep where
   | runBegin (keys : List KeyReq)
   | runKey
   | runEnd
-  | start (j : Nat)
-  | skip (j : Nat) (order : List Nat)
-  | finish (j : Nat) (fail : Bool) (order : List Nat)
+  | dequeue (j : Nat)
+  | check (j : Nat)
+  | finish (j : Nat) (fail : Bool)
+  | dereg (j o : Nat)
+  | notify (j : Nat) (order : List Nat)
   | stop
   | wait
 deriving DecidableEq, Repr
+
+/-- workers that hold a task (from `dequeue` to the end of `notify`) -/
+def numBusy (s : State) : Nat :=
+  ((List.range s.n).filter (fun j =>
+    match s.status j with
+    | .dequeued => true
+    | .running => true
+    | .ending _ => true
+    | _ => false)).length
 
 def isEnabledF (fs : FState) : FStep → Bool
   | .runBegin ks => fs.reg.isNone && fs.s.waited.isNone && keysNodup ks
@@ -71,11 +99,17 @@ def isEnabledF (fs : FState) : FStep → Bool
     match fs.reg with
     | some r => r.pending.isEmpty
     | none => false
-  | .start j => isEnabled fs.s (.start j)
-  | .skip j o => isEnabled fs.s (.skip j o)
-  | .finish j f o => isEnabled fs.s (.finish j f o)
-  | .stop => isEnabled fs.s .stop
-  | .wait => fs.reg.isNone && isEnabled fs.s .wait
+  | .dequeue j => fs.s.waited.isNone && fs.s.queue.head? == some j && decide (numBusy fs.s < fs.s.workers)
+  | .check j => decide (j < fs.s.n) && fs.s.status j == .dequeued
+  | .finish j _ => decide (j < fs.s.n) && fs.s.status j == .running
+  | .dereg j o =>
+      decide (j < fs.s.n) && (match fs.s.status j with | .ending _ => true | _ => false) &&
+        decide (o ∈ fs.s.reading j)
+  | .notify j order =>
+      decide (j < fs.s.n) && (match fs.s.status j with | .ending _ => true | _ => false) &&
+        (fs.s.reading j).isEmpty && isArrangement order (ready fs.s j)
+  | .stop => fs.s.waited.isNone
+  | .wait => fs.reg.isNone && fs.s.waited.isNone && allExecuted fs.s
 
 def applyF (fs : FState) : FStep → FState
   | .runBegin ks =>
@@ -94,23 +128,45 @@ def applyF (fs : FState) : FStep → FState
     match fs.reg with
     | some r => { fs with s := endRun fs.s r.t r.ds fs.maxDeps, reg := none }
     | none => fs
-  | .start j => { fs with s := apply fs.s (.start j) }
-  | .skip j o => { fs with s := apply fs.s (.skip j o) }
-  | .finish j f o => { fs with s := apply fs.s (.finish j f o) }
+  | .dequeue j =>
+    { fs with s := { fs.s with queue := fs.s.queue.tail,
+                               status := fun x => if x = j then .dequeued else fs.s.status x } }
+  | .check j =>
+    if fs.s.err.isNone then
+      { fs with s := { fs.s with status := fun x => if x = j then .running else fs.s.status x,
+                                 log := .start j :: fs.s.log } }
+    else
+      { fs with s := { fs.s with status := fun x => if x = j then .ending false else fs.s.status x,
+                                 log := .skip j :: fs.s.log } }
+  | .finish j fail =>
+    { fs with s := { fs.s with status := fun x => if x = j then .ending true else fs.s.status x,
+                               err := if fail then cas fs.s.err (.task j) else fs.s.err,
+                               log := .fin j fail :: fs.s.log } }
+  | .dereg j o =>
+    { fs with s := { fs.s with
+        readers := fun o' r => if o' = o ∧ r = j then false else fs.s.readers o' r,
+        reading := fun x => if x = j then (fs.s.reading j).filter (· != o) else fs.s.reading x } }
+  | .notify j order =>
+    match fs.s.status j with
+    | .ending ran => { fs with s := complete fs.s j (if ran then .done else .skipped) order }
+    | _ => fs
   | .stop => { fs with s := apply fs.s .stop }
   | .wait => { fs with s := apply fs.s .wait }
 
-/-- canonical enabled steps of the finer relation (client steps `runBegin`/`stop` excluded) -/
+/-- canonical enabled steps of the finest relation (client steps `runBegin`/`stop` excluded;
+`notify` with the sorted order, `finish` with both results) -/
 def enabledF (fs : FState) : List FStep :=
   (if isEnabledF fs .runKey then [FStep.runKey] else []) ++
   (if isEnabledF fs .runEnd then [FStep.runEnd] else []) ++
-  (enabled fs.s).filterMap (fun st =>
-    match st with
-    | .start j => some (FStep.start j)
-    | .skip j o => some (FStep.skip j o)
-    | .finish j f o => some (FStep.finish j f o)
-    | .wait => if fs.reg.isNone then some FStep.wait else none
-    | _ => none)
+  (match fs.s.queue.head? with
+    | some j => if isEnabledF fs (.dequeue j) then [FStep.dequeue j] else []
+    | none => []) ++
+  (List.range fs.s.n).flatMap (fun j =>
+    (if isEnabledF fs (.check j) then [FStep.check j] else []) ++
+    (if isEnabledF fs (.finish j false) then [FStep.finish j false, FStep.finish j true] else []) ++
+    ((fs.s.reading j).filter (fun o => isEnabledF fs (.dereg j o))).map (FStep.dereg j) ++
+    (if isEnabledF fs (.notify j (ready fs.s j)) then [FStep.notify j (ready fs.s j)] else [])) ++
+  (if isEnabledF fs .wait then [FStep.wait] else [])
 
 inductive ReachableF (w maxDeps : Nat) : FState → Prop where
   | init : ReachableF w maxDeps (fInit w maxDeps)
